@@ -56,6 +56,7 @@ struct ItemSpec {
     forpat: bool,
     fmt_nonempty: bool,
     add_ufcs: bool,
+    keep_trait: bool,                    // traitfn: emit inside `impl Trait for Type` (not as inherent method)
     param_types: Vec<(String, String)>,   // R12: parameter NAME gets the type TEXT (impl Iterator -> SeqIter)
     viter: bool,                         // apply R5 (iterator entry) to this item
     attrs: Vec<String>,                  // extra attributes (e.g. verifier::rlimit)
@@ -335,6 +336,7 @@ fn parse_template(text: &str) -> Vec<Result<String, ItemSpec>> {
                         "forpat" => spec.forpat = true,
                         "fmt-nonempty" => spec.fmt_nonempty = true,
                         "add-ufcs" => spec.add_ufcs = true,
+                        "keep-trait" => spec.keep_trait = true,
                         "param-type" => { let (n, t) = arg.split_once(char::is_whitespace).unwrap_or_else(|| die("//@param-type NAME TYPE")); spec.param_types.push((n.trim().to_string(), t.trim().to_string())); }
                         "drop-derive" => spec.drop_derive.push(arg.to_string()),
                         "attr" => spec.attrs.push(arg.to_string()),
@@ -787,13 +789,22 @@ fn emit_item(
                 if !pre.is_empty() {
                     edits.push(Edit { start: s, end: s, text: pre, kind: "attr".into(), prio: -10 });
                 }
+            } else if !spec.attrs.is_empty() {
+                let mut pre = String::new();
+                for a in &spec.attrs {
+                    let _ = writeln!(pre, "#[{}]", a);
+                }
+                edits.push(Edit { start: s, end: s, text: pre, kind: "attr".into(), prio: -10 });
             }
             (s, e, None)
         }
         Found::ImplFn(im, f) => {
             let (s, e) = br(f.span());
             rewrite::attr_edits(&f.attrs, src, &mut edits, &mut rewrites);
-            rewrite::vis_edit(&f.vis, br(f.sig.span()).0, &mut edits, &mut rewrites);
+            let as_trait = spec.keep_trait && im.trait_.is_some();
+            if !as_trait {
+                rewrite::vis_edit(&f.vis, br(f.sig.span()).0, &mut edits, &mut rewrites);
+            }
             if spec.mode != "trusted" {
                 rewrite::drop_print_stmts(&f.block, src, &mut edits, &mut rewrites);
             }
@@ -809,7 +820,12 @@ fn emit_item(
                 edits.push(Edit { start: s, end: s, text: pre, kind: "attr".into(), prio: -10 });
             }
             let generics = quote::ToTokens::to_token_stream(&im.generics).to_string();
-            (s, e, Some(format!("impl{} {} {{\n", generics, type_name(&im.self_ty))))
+            if as_trait {
+                let tp = norm(&quote::ToTokens::to_token_stream(&im.trait_.as_ref().unwrap().1).to_string()).replace(" < ", "<").replace(" >", ">");
+                (s, e, Some(format!("impl{} {} for {} {{\n", generics, tp, type_name(&im.self_ty))))
+            } else {
+                (s, e, Some(format!("impl{} {} {{\n", generics, type_name(&im.self_ty))))
+            }
         }
         Found::ImplConst(im, c) => {
             let (s, e) = br(c.span());
